@@ -237,7 +237,7 @@ Theorem C06_translated_read_uvarint_is_rd_uv : forall fuel pos (bs : list N),
   GoLite.call GoLiteC06.prog GoLiteC06_Codec.std_ext fuel "uvarintReader.ReadUvarint"%string [GoLiteC06_Codec.rdr_val pos bs] =
   match rd_uv (skipn pos bs) with
   | Some None => GoLite.RRet (GoLite.VTuple [GoLite.VInt 0%Z; GoLite.VErr "io.EOF"%string; GoLiteC06_Codec.rdr_val pos bs])
-  | None => GoLite.RRet (GoLite.VTuple [GoLite.VInt 0%Z; GoLite.VErr "errors.New: failed to parse uvarint"%string; GoLiteC06_Codec.rdr_val pos bs])
+  | None => GoLite.RRet (GoLite.VTuple [GoLite.VInt 0%Z; GoLite.VErr "errors.New"%string; GoLiteC06_Codec.rdr_val pos bs])
   | Some (Some (v, _)) =>
       match uvarint_dec (skipn pos bs) with
       | Some (_, n) => GoLite.RRet (GoLite.VTuple [GoLite.VInt (Z.of_N v); GoLite.VNil; GoLiteC06_Codec.rdr_val (pos + n) bs])
